@@ -111,6 +111,19 @@ func c16NonCanonical() []c16NC {
 			return opt
 		}})
 	}
+	// OPT with 1..3 Report-Channel options whose agent domain is not fully qualified (the packer completes it)
+	for n := 1; n <= 3; n++ {
+		for _, agent := range []string{"agent.example.net", "Agent.Example.NET", "a"} {
+			n, agent := n, agent
+			out = append(out, c16NC{fmt.Sprintf("OPT with %d REPORTING option(s), agent domain %q not fully qualified", n, agent), func() dns.RR {
+				opt := &dns.OPT{Hdr: dns.RR_Header{Name: ".", Rrtype: dns.TypeOPT, Class: 1232}}
+				for i := 0; i < n; i++ {
+					opt.Option = append(opt.Option, &dns.EDNS0_REPORTING{Code: dns.EDNS0REPORTING, AgentDomain: agent})
+				}
+				return opt
+			}})
+		}
+	}
 	// single records
 	single := []c16NC{
 		{"A with the address in 16-octet form", func() dns.RR { return &dns.A{Hdr: hdr(dns.TypeA), A: net.ParseIP("192.0.2.1")} }},
